@@ -16,7 +16,23 @@ EXHAUSTIVE_THOROUGH = [
     "P:0:0 P:1:1 R:1 D R:0 / D D",
     "P:0:0 R:0 P:1:0 R:0 D / D D",
 ]
+def deep(n, tor=0):
+    """n pieces pushed in one burst (main thread runs ahead of the disk thread)"""
+    return " ".join("P:%d:%d" % (k, tor) for k in range(n))
+
+
+# DownloadWrapper side (harness/c18dw.cc): hash_check on a real Download, then hash_stop / close with pieces pending
+DW_CASES = [
+    "40 2048 c s", "40 2048 c w1 s", "40 2048 c w3 s x", "40 2048 c x", "40 2048 c w1 x",
+    "100 1100 c w2 s o c s x", "100 1100 c s o c t3 x", "8 4096 c s", "8 4096 c t2 s x", "300 1100 c w5 s", "300 1100 c t1 s x",
+    "40 2048 c t50 w40 t50 s x",
+]
+
 HAND = [
+    # deep queue: more pieces pending on the disk thread than any per-callback batch (70 > 64): one perform() callback was
+    # queued by the first push only, every piece must still be hashed and answered (second torrent's piece queued behind them too)
+    (deep(70) + " D D D / LOOP", ["0" * 72 + "1" * 450 + "0" * 320 + "01" * 60]),
+    (deep(66) + " P:66:1 D D / LOOP", ["0" * 69 + "1" * 440 + "0" * 320 + "01" * 60, "0" * 40 + "1" * 100 + "0" * 29 + "1" * 400 + "0" * 320 + "01" * 60]),
     # a result consumed by remove() leaves a stale work() callback; a later piece of another torrent must still be answered
     ("P:0:0 R:0 D P:1:1 D D / D D", ["000" + "1" * 8 + "0" * 9 + "1" * 8 + "0" * 12 + "01" * 20, "000" + "1" * 8 + "0" * 2 + "01" * 40]),
     ("P:0:0 R:0 D P:1:1 D D / LOOP", ["000" + "1" * 8 + "0" * 9 + "1" * 10 + "0" * 12 + "01" * 20]),
